@@ -127,3 +127,6 @@ Definition res_eqb {A : Type} (eqb : A -> A -> bool) (a b : res A) : bool :=
   | _, _ => false
   end.
 Definition unit_eqb (_ _ : unit) : bool := true.
+
+(* s1 - s2 for sets *)
+Definition set_diff (a b : list Z) : list Z := filter (fun x => negb (memZ x b)) a.
